@@ -2097,6 +2097,33 @@ pub fn f10() -> Fragment {
             Stmt::Res(rel(E::Uri(p4, None), vec![ok()])),
         ]));
     }
+    // sums, joins and untyped alternatives of three and four operands whose kinds clash in
+    // every position (first, middle, last), written in place and through parameters
+    {
+        let o = || obj(vec![prop("p", E::Prim(Prim::Bool))]);
+        let lists: Vec<Vec<E>> = vec![
+            vec![num(), str_(), obj(vec![])],
+            vec![obj(vec![]), num(), str_()],
+            vec![num(), obj(vec![]), str_()],
+            vec![num(), str_(), obj(vec![]), o()],
+            vec![num(), str_(), E::Prim(Prim::Bool), arr(num())],
+            vec![num(), str_(), E::Prim(Prim::Bool)],
+            vec![obj(vec![]), o(), uri_lit(&["a"])],
+        ];
+        for l in lists.iter() {
+            for k in [Op::Sum, Op::Any, Op::Join] {
+                programs.push(single(vec![get(content(op(k, l.clone())))]));
+            }
+        }
+        programs.push(single(vec![
+            fun("f", &["x", "y", "z"], obj(vec![prop("v", op(Op::Sum, vec![var("x"), var("y"), var("z")]))])),
+            get(content(app("f", vec![num(), str_(), obj(vec![])]))),
+        ]));
+        programs.push(single(vec![
+            fun("f", &["x", "y", "z"], obj(vec![prop("v", op(Op::Sum, vec![var("x"), var("y"), var("z")]))])),
+            get(content(app("f", vec![num(), str_(), E::Prim(Prim::Bool)]))),
+        ]));
+    }
     // two name errors in one program: a declaration written twice and a use of an undefined
     // name (which one is reported must not depend on the order of the statements)
     programs.push(single(vec![
